@@ -22,7 +22,7 @@ Implementation: Multi-language analysis with config-driven filtering and min_ope
 from fnmatch import fnmatch
 
 from src.core.base import BaseLintContext, MultiLanguageLintRule
-from src.core.linter_utils import load_linter_config
+from src.core.linter_utils import load_linter_config, path_in_project
 from src.core.types import Violation
 
 from .config import CQSConfig
@@ -91,7 +91,7 @@ class CQSRule(MultiLanguageLintRule):
         """
         file_path = str(context.file_path) if context.file_path else "unknown"
 
-        if self._matches_ignore_pattern(file_path, config):
+        if self._matches_ignore_pattern(context, config):
             return []
 
         patterns = self._python_analyzer.analyze(context.file_content or "", file_path, config)
@@ -109,7 +109,7 @@ class CQSRule(MultiLanguageLintRule):
         """
         file_path = str(context.file_path) if context.file_path else "unknown"
 
-        if self._matches_ignore_pattern(file_path, config):
+        if self._matches_ignore_pattern(context, config):
             return []
 
         patterns = self._typescript_analyzer.analyze(context.file_content or "", file_path, config)
@@ -130,17 +130,26 @@ class CQSRule(MultiLanguageLintRule):
         violating_patterns = [p for p in patterns if self._is_violation(p, config)]
         return [build_cqs_violation(p) for p in violating_patterns]
 
-    def _matches_ignore_pattern(self, file_path: str, config: CQSConfig) -> bool:
-        """Check if file path matches any ignore pattern.
+    def _matches_ignore_pattern(self, context: BaseLintContext, config: CQSConfig) -> bool:
+        """Check if the file matches any ignore pattern.
+
+        Patterns are written relative to the project (tests/*): the file is judged by its path inside
+        the project, however the target was spelled, and by the path as given.
 
         Args:
-            file_path: Path to check
+            context: Lint context of the file
             config: CQS configuration
 
         Returns:
             True if path matches an ignore pattern
         """
-        return any(fnmatch(file_path, pattern) for pattern in config.ignore_patterns)
+        candidates = {str(context.file_path)} if context.file_path else {"unknown"}
+        in_project = path_in_project(context)
+        if in_project is not None:
+            candidates.add(str(in_project).lstrip("/"))
+        return any(
+            fnmatch(path, pattern) for path in candidates for pattern in config.ignore_patterns
+        )
 
     def _is_violation(self, pattern: CQSPattern, config: CQSConfig) -> bool:
         """Check if pattern represents a violation based on config.
